@@ -311,6 +311,13 @@ class Instance:
         ba = sig.bind(*args, **(kwargs or {}))
         ba.apply_defaults()
         key = tuple(ba.arguments.values())
+        hit = ev.item_cache.get((self.path, key))
+        if hit is not None:
+            # created earlier in this evaluation: like modelx, the parameter formula is not run again
+            node = ev.push(self.path, key, cached=True, kind="space", leaf=True)
+            node.is_input = True
+            ev.pop()
+            return hit
         node = ev.push(self.path, key, cached=True, kind="space")
         if node.elem in ev.memo:
             # the ItemSpace already exists: its parameter formula is not run again (re-derive the
@@ -348,6 +355,7 @@ class Instance:
         steps = self.steps + [("i", key)]
         it = Instance(ev, steps, base, bound, extra, None)
         it.root = it
+        ev.item_cache[(self.path, key)] = it
         return it
 
 
@@ -434,6 +442,7 @@ class Evaluator:
         self.maxdepth = maxdepth
         self.memo = memo or {}      # elem -> value : elements treated as already held (leaves)
         self.quiet = 0
+        self.item_cache = {}        # ItemSpaces created during the current top-level evaluation
         self._static = {}
         self._code = {}
 
@@ -589,6 +598,7 @@ class Evaluator:
     def eval(self, instpath, cname, args=(), kwargs=None):
         """Returns ("ok", value, tree) or ("exc", exception, tree)."""
         self.stack, self.roots = [], []
+        self.item_cache = {}
         try:
             inst = self.instance(instpath)
             v = self.call(inst, cname, tuple(args), dict(kwargs or {}))
